@@ -13,6 +13,7 @@ structures) and an injected allocation failure at an arbitrary tick.
 """
 
 import copy
+import json
 import os
 import random
 import sys
@@ -66,7 +67,7 @@ class C18(Engine):
         'stub': ['who runs next: decided by the simulator, never by the OS'],
     }
     tiers = {
-        'quick': dict(runs=1600, wall_cap=170, chunk=4, minimise_s=60),
+        'quick': dict(runs=1400, wall_cap=170, chunk=4, minimise_s=60),
         'thorough': dict(runs=30000, wall_cap=3300, chunk=4, minimise_s=180),
     }
 
@@ -162,8 +163,18 @@ class C18(Engine):
                     op.update(kind='decode', value=ser(value),
                               fault={'kind': 'none'})
                 else:
-                    op.update(kind='decode', value=ser(value),
-                              fault=wire.draw_fault(faults, codec, 1.0))
+                    fault = wire.draw_fault(faults, codec, 1.0)
+
+                    if codec in ('ber', 'der') and faults.random() < 0.35:
+                        # Well-formed encodings of something else (a
+                        # mandatory member missing, a member twice): the
+                        # decoder fails deep inside, on its error paths.
+                        fault = {'kind': faults.choice(
+                            ['node-drop-fix', 'node-drop-fix',
+                             'node-dup-fix', 'node-swap-fix']),
+                            'seed': faults.getrandbits(32)}
+
+                    op.update(kind='decode', value=ser(value), fault=fault)
 
                     if rng.random() < 0.4:
                         follow = base_op(type_name)
@@ -203,12 +214,12 @@ class C18(Engine):
     # -- exhaustive single-pre-emption sweeps -----------------------------------
 
     def plan(self, tier, seed, runs):
-        items = Engine.plan(self, tier, seed, runs)
-        sweeps = 24 if tier == 'quick' else max(200, runs // 20)
-
-        for index in range(sweeps):
-            items.append({'kind': 'preempt',
-                          'seed': mix(seed, 'C18-preempt', index)})
+        sweeps = 36 if tier == 'quick' else max(200, runs // 20)
+        # (The sweeps first: they are the longest items, and on a loaded
+        # machine the wall cap cuts the end of the plan.)
+        items = [{'kind': 'preempt', 'seed': mix(seed, 'C18-preempt', index)}
+                 for index in range(sweeps)]
+        items.extend(Engine.plan(self, tier, seed, runs))
 
         return items
 
@@ -240,7 +251,6 @@ class C18(Engine):
         chosen = max(pairs, key=len)
         rng = random.Random(mix(item['seed'], 'pair'))
         first, second = rng.sample(chosen, 2)
-        ops = [dict(first, thread=0), dict(second, thread=1)]
         text = specgen.render(base['spec'])
         shared = world.compile_text(text, codec, base['numeric_enums'])
         oracle = world.compile_text(text, codec, base['numeric_enums'])
@@ -250,7 +260,58 @@ class C18(Engine):
 
             return result
 
+        # Besides that pair: the same FAILING call from both threads, once
+        # per kind of failure that occurs in this case (shared error
+        # objects, location paths and half-built results show as mixed error
+        # texts).
+        pairs_to_run = [[dict(first, thread=0), dict(second, thread=1)]]
+        seen_failures = set()
+        candidates = list(base['ops'])
+        rng.shuffle(candidates)
+
+        for op in candidates[:30]:
+            data = None
+
+            if op['kind'] == 'decode':
+                if op['fault']['kind'] in ('none', 'raw'):
+                    continue
+
+                outcome, _ = steps.call(
+                    lambda: oracle[1].encode(op['type'], deser(op['value'])),
+                    OP_BUDGET)
+
+                if outcome[0] != 'ok':
+                    continue
+
+                data = wire.mutate(outcome[1], op['fault'], b'')
+
+            fn, _ = self.make_call(oracle[1], op, data)
+            outcome, _ = steps.call(fn, OP_BUDGET)
+
+            if outcome[0] != 'err' or outcome[1] in seen_failures:
+                continue
+
+            seen_failures.add(outcome[1])
+            pairs_to_run.append([dict(op, thread=0),
+                                 dict(copy.deepcopy(op), thread=1)])
+            result.stats['preempt-sweeps-same-failing-call'] += 1
+
+            if len(pairs_to_run) >= 4:
+                break
+
         shared, oracle = shared[1], oracle[1]
+
+        for ops in pairs_to_run:
+            self.sweep_pair(result, item, base, text, codec, shared, oracle,
+                            ops, rng)
+
+            if result.violations:
+                break
+
+        return result
+
+    def sweep_pair(self, result, item, base, text, codec, shared, oracle,
+                   ops, rng):
         pristine = graph.fingerprint(oracle)[0]
         datas = []
         expected = []
@@ -365,7 +426,8 @@ class C18(Engine):
                 break
 
         team.close()
-        result.key('preempt', item['seed'],
+        result.key('preempt', item['seed'], ops[0]['type'],
+                   json.dumps(ops[0].get('fault')), ops[0] == ops[1],
                    weight=sum(alone_ticks))
         result.log.append(['preempt', codec, [o['kind'] for o in ops],
                            alone_ticks, len(result.violations)])
